@@ -325,7 +325,7 @@ impl<const N: usize> TryFrom<u64> for U32s<N> {
     fn try_from(value: u64) -> Result<Self, Self::Error> {
         let err = Err(Self::Error::InsufficientSize);
         match N {
-            0 => err,
+            0 if value != 0 => err,
             1 if value > u64::from(u32::MAX) => err,
             _ => Ok(U32s::from(BigUint::from(value))),
         }
@@ -338,7 +338,7 @@ impl<const N: usize> TryFrom<u128> for U32s<N> {
     fn try_from(value: u128) -> Result<Self, Self::Error> {
         let err = Err(Self::Error::InsufficientSize);
         match N {
-            0 => err,
+            0 if value != 0 => err,
             1 if value > u128::from(u32::MAX) => err,
             2 if value > u128::from(u64::MAX) => err,
             3 if value >= 1 << 96 => err,
